@@ -80,10 +80,10 @@ func copyTree(src, dst string) error {
 }
 
 type variantResult struct {
-	v        variant
-	status   string // detected | silent | missed | alarmed | skipped | invalid
-	newKeys  []string
-	note     string
+	v       variant
+	status  string // detected | silent | missed | alarmed | skipped | invalid
+	newKeys []string
+	note    string
 }
 
 func runOneVariant(v variant, id, repo, verif string, known map[string]Finding) variantResult {
@@ -212,7 +212,7 @@ func variantsImpl(id, repo, verif string, baseClean bool) map[string]interface{}
 			"refactor_total": cnt["refactor_total"], "refactor_silent": cnt["refactor_silent"], "refactor_alarmed": cnt["refactor_alarmed"],
 			"skipped": cnt["break_skipped"] + cnt["keep_skipped"] + cnt["seeded_skipped"] + cnt["refactor_skipped"], "invalid": cnt["break_invalid"] + cnt["keep_invalid"] + cnt["seeded_invalid"] + cnt["refactor_invalid"],
 			"details": details,
-			"note":   "self-validation of the checker on scratch copies; a missed break or an alarmed keep is a deficiency of the checker and is reported as such, never as a violation of /repo",
+			"note":    "self-validation of the checker on scratch copies; a missed break or an alarmed keep is a deficiency of the checker and is reported as such, never as a violation of /repo",
 		},
 	}
 }
